@@ -641,7 +641,7 @@ def o_memory(w, tr):
                 task_end[int(lab.split('@')[1]) // c_sz] = e[0]
         nparts = max(part_of(c) for c in gets) + 1
         win = cfg.max_in_memory_download_chunks
-        if len(w.transfers) == 1 or all(x['t'].get('dst') not in ('nonseekable', 'special') for x in w.transfers if x is not info):
+        if True:
             for c in gets:
                 p = part_of(c)
                 lowest = min([q for q in range(nparts) if task_end.get(q, END) > c['begin']], default=nparts)
@@ -697,17 +697,20 @@ def o_barrier(w, tr):
     sh = tr.first_step('user.shutdown_returned')
     if sh is None:
         return out
+    inj_threads = {t.id for t in w.sched.threads if t.role == 'inject'}
     for kind in ('s3.begin', 'fs.write', 'sink.write', 'cb.queued', 'cb.progress', 'cb.done', 'fs.rename', 'fs.remove'):
-        late = [e for e in tr.ev(kind) if e[0] > sh]
+        # callbacks executed synchronously inside the user's own, still running,
+        # future.cancel()/shutdown(cancel) call belong to that call, not to the manager
+        late = [e for e in tr.ev(kind) if e[0] > sh and e[1] not in inj_threads]
         if late:
             out.append((f'C18:{kind}-after-shutdown',
                         f'{kind} {late[0][3]} at step {late[0][0]} after shutdown returned at step {sh}'))
     # every transfer done when shutdown returned
-    for info in w.transfers:
-        idx = info['idx']
-        d = tr.first_step('cb.done', tid=idx)
-        if d is None or d > sh:
-            out.append(('C18:not-done-at-shutdown', f'transfer {idx} not done when shutdown returned'))
+    flags = [e for e in tr.ev('user.done_flags')]
+    if flags:
+        for idx, f in enumerate(flags[0][3]['flags']):
+            if not f:
+                out.append(('C18:not-done-at-shutdown', f'transfer {idx}: future.done() is False after shutdown returned'))
     return out
 
 
@@ -806,6 +809,9 @@ def o_cancel(w, tr):
                         f'transfer {idx} ended with {oc[1]!r} although only a cancellation happened'))
         # unfinished at cancel time must end cancelled or complete successfully:
         first_cancel = min(x[0] for x in exps)
+    # "... runs its cleanups": the C05 / C06 clauses for cancelled transfers
+    for sig, msg in o_mpu(w, tr) + o_fs(w, tr):
+        out.append(('C07:cleanup:' + sig, msg))
     # shutdown(cancel) / with-exit must have returned
     if script.startswith('with') or script in ('wait', 'shutdown'):
         if not tr.ev('user.shutdown_returned'):
@@ -969,7 +975,12 @@ def explore_job(job):
     st = explore.explore(lambda p: run_exec(scn, p, sd, want=want, monitor_fs=mon),
                          job['bound'], forced_cost=job.get('forced_cost', 1),
                          max_execs=job.get('max_execs'), seed=job.get('seed', 0),
-                         deadline=job.get('deadline'), root_prefix=job.get('root_prefix', ()))
+                         deadline=job.get('deadline'), root_prefix=job.get('root_prefix', ()),
+                         root_cost=job.get('root_cost'), root_only=job.get('root_only', False))
+    if job.get('root_only'):
+        kids = explore.first_level(st.root_exec, job['bound'], job.get('forced_cost', 1))
+        st.root_exec = None
+        return {'name': job.get('name', ''), 'stats': st, 'violations': [], 'kids': kids}
     viol = []
     for ch, v in st.violations:
         viol.append({'sig': v['sig'], 'msg': v['msg'] + f' | scenario={_scn_brief(scn)} choices={ch}',
@@ -985,7 +996,9 @@ def _scn_brief(scn):
 def run_catalogue(jobs, tier, prop, extra_rule=''):
     """Runs exploration jobs in parallel, merges stats into evidence coverage."""
     t0 = time.time()
+    jobs = split_jobs(jobs)
     res = explore.run_jobs(explore_job, jobs)
+    res, jobs = regroup(res, jobs)
     tot = explore.Stats()
     viol = []
     per = {}
@@ -1018,6 +1031,48 @@ def run_catalogue(jobs, tier, prop, extra_rule=''):
         'maxima_observed': tot.maxima,
     }
     return cov, viol
+
+
+def _budget(bound):
+    if isinstance(bound, dict):
+        return sum(bound.values())
+    return bound
+
+
+def split_jobs(jobs):
+    """Split big jobs by schedule prefix (one sub-job per first-level child) so
+    that a single scenario is explored on all cores."""
+    big = [j for j in jobs if 'scn' in j and _budget(j['bound']) >= 2 and not j.get('nosplit')]
+    if not big:
+        return jobs
+    roots = explore.run_jobs(explore_job, [dict(j, root_only=True) for j in big])
+    out = [j for j in jobs if j not in big]
+    for j, r in zip(big, roots):
+        # the root execution itself (children of the root are the sub-jobs)
+        out.append(dict(j, bound={'sched': 0, 'env': 0, 'inject': 0}, forced_cost=1, _group=j['name'], _root=True))
+        kids = r['kids']
+        cap = j.get('max_execs')
+        for pre, cost in kids:
+            out.append(dict(j, root_prefix=pre, root_cost=cost, _group=j['name']))
+    # biggest budgets first
+    out.sort(key=lambda j: (-_budget(j['bound']) if 'scn' in j else 0, -len(j.get('root_prefix', ()))))
+    return out
+
+
+def regroup(res, jobs):
+    groups = {}
+    order = []
+    for r, j in zip(res, jobs):
+        g = j.get('_group')
+        if g is None:
+            order.append((r, j))
+            continue
+        if g not in groups:
+            groups[g] = ({'name': g, 'stats': explore.Stats(), 'violations': []}, j)
+            order.append(groups[g])
+        groups[g][0]['stats'].merge(r['stats'])
+        groups[g][0]['violations'].extend(r['violations'])
+    return [o[0] for o in order], [o[1] for o in order]
 
 
 def replay_manager(data):
